@@ -568,7 +568,7 @@ impl Property for C05 {
         let n = alphabet(tier).len();
         format!(
             "step alphabet of {n} steps (sleep, sleep_until, timeout over sleep / pending / far-future / message-fed flag, biased select of two sleeps and of a far-future sleep in both branch orders, create-poll-drop, reset before/after first poll (also to the same, an earlier or an already passed deadline, and after another timer ran), interval reset, interval x {{Burst, Delay, Skip}} x busy gaps {{0, p/2, p+3ms, p+6ms, 2p+6ms, 5s}}, wait for a message-fed flag; delays 0..3 s); \
-             enumerated completely: one task with every script of 1..={} steps; two tasks (1 step | 1 step) for every combination; two tasks (1 step | 2 steps) over {}; the same scripts of up to 2 steps with the module shut down at 1.25 s and restarted 1 s later; \
+             enumerated completely: one task with every script of 1..={} steps; two tasks (1 step | 1 step) for every combination; two tasks (1 step | 2 steps) over {}; the same scripts of up to 2 steps with the module shut down at 1.25 s and restarted 1 s later; 61 / 62 / 80 / 130 tasks running one script (sleep, two sleeps, timeout, select) so that their timers share deadlines, without and with that restart; \
              oracle: reference interpreter with exact virtual time: every await returns at exactly the computed instant with the computed value, every joined task finishes, run end in [last completion, latest finite deadline registered]; a message-fed future becoming ready at exactly a competing deadline accepts both results; \
              non-trivial = script in which a live timer has to fire behind a cancelled / dropped / already-fired one",
             tier.pick(2, 3),
@@ -582,7 +582,7 @@ impl Property for C05 {
         ]
     }
     fn required_features(&self, _tier: Tier) -> Vec<&'static str> {
-        vec!["live_timer_behind_cancelled_one", "message_timer_tie", "two_tasks", "restart_variant", "interval_missed_tick"]
+        vec!["live_timer_behind_cancelled_one", "message_timer_tie", "two_tasks", "restart_variant", "interval_missed_tick", "many_timers_sharing_a_deadline"]
     }
     fn explore(&self, ctx: &mut Ctx) {
         let alpha = alphabet(ctx.tier);
@@ -638,6 +638,17 @@ impl Property for C05 {
                         if ctx.mine() {
                             cases.push(Case { tasks: vec![vec![*a], vec![*b], vec![*c]], restart: None });
                         }
+                    }
+                }
+            }
+        }
+        // many timers of one module sharing their deadlines, in a fresh and in a restarted incarnation
+        for script in [vec![Step::Sleep(S)], vec![Step::Sleep(2 * S), Step::Sleep(S)], vec![Step::Timeout(S, 2 * S)], vec![Step::Sel(S, 2 * S)]] {
+            for n in [61usize, 62, 80, 130] {
+                for restart in [None, Some((1250u64, 1000u64))] {
+                    if ctx.mine() {
+                        ctx.hit("many_timers_sharing_a_deadline");
+                        cases.push(Case { tasks: vec![script.clone(); n], restart });
                     }
                 }
             }
